@@ -15,6 +15,7 @@ inline int key_of(const Tracked<K> &e) { e.check_live("read(comparator)"); retur
 inline int key_of(const TC4 &e) { return e.key; }
 inline int key_of(const TC1 &e) { return e.b & 7; }
 inline int key_of(const TC8 &e) { return e.key; }
+inline int key_of(const TC16A &e) { return e.key; }
 inline int key_of(const K1 &e) { return e.k; }
 inline int key_of(const K2 &e) { return e.k; }
 inline int key_of(const TC12 &e) { return e.key; }
